@@ -39,7 +39,6 @@ func Classify(err error) ErrClass {
 	return c
 }
 
-
 // DecodePatch calls jsonpatch.DecodePatch.
 func DecodePatch(patch []byte) (jsonpatch.Patch, error) { return jsonpatch.DecodePatch(patch) }
 
